@@ -152,6 +152,39 @@ fn check_seq<T: Copy + PartialEq + std::fmt::Debug>(cx: &mut Ctx, cell: &str, cl
     }
 }
 
+/// build_from(prefix) followed by push of the rest (and, at the end, a second build of everything for comparison): the state a
+/// bulk build leaves behind is what the incremental path continues from.  Oracle-only.
+fn uintvector_mixed_case(cx: &mut Ctx, vals: &[u32], split: usize) {
+    let cell = "UintVector/build_from+push";
+    let split = split.min(vals.len());
+    cx.sum.eval(cell, &format!("{} {} {:?}", cell, split, vals), vals.len() >= 2);
+    cx.sum.cell_status(cell, "S-only");
+    let cj = json!({"cell": "uintvector_mixed", "split": split, "values": vals});
+    let r = guarded(|| -> Result<Option<String>, String> {
+        let mut u = UintVector::build_from(&vals[..split]).map_err(|e| format!("{:?}", e))?;
+        for k in split..vals.len() {
+            u.push(vals[k]).map_err(|e| format!("{:?}", e))?;
+            if u.len() != k + 1 { return Ok(Some(format!("after build_from({} values) and {} pushes len() = {}", split, k + 1 - split, u.len()))); }
+            // the bulk-built prefix, the pushed part and the end, after every push (sampled on long inputs)
+            if k - split < 3 || (k + 1) % 64 <= 1 || k + 1 == vals.len() || k % 11 == 0 {
+                for &j in &[0usize, split.saturating_sub(1), split.min(k), (k * 5 + 3) % (k + 1), k] {
+                    if u.get(j) != Some(vals[j]) { return Ok(Some(format!("after build_from({} values) and {} pushes get({}) = {:?}, stored {}", split, k + 1 - split, j, u.get(j), vals[j]))); }
+                }
+                if u.get(k + 1).is_some() { return Ok(Some(format!("get({}) past the end is not refused", k + 1))); }
+            }
+        }
+        for (j, &v) in vals.iter().enumerate() { if u.get(j) != Some(v) { return Ok(Some(format!("final read: get({}) = {:?}, stored {}", j, u.get(j), v))); } }
+        if u.len() != vals.len() || u.is_empty() != vals.is_empty() { return Ok(Some(format!("final len() = {}", u.len()))); }
+        Ok(None)
+    });
+    match r {
+        Err(p) => cx.sum.fail(cell, None, cj, &format!("panicked: {}", p)),
+        Ok(Err(_)) => cx.sum.dist("build_refused"),
+        Ok(Ok(Some(m))) => cx.sum.fail(cell, None, cj, &m),
+        Ok(Ok(None)) => {}
+    }
+}
+
 fn uintvector_case(cx: &mut Ctx, vals: &[u32], by_push: bool, force_coq: bool, rng: &mut Rng) {
     let cell = if by_push { "UintVector/push" } else { "UintVector/build_from" };
     cx.sum.eval(cell, &format!("{} {:?}", cell, vals), vals.len() >= 2);
@@ -313,6 +346,7 @@ fn run_one(cx: &mut Ctx, c: &Value, rng: &mut Rng) {
                       else { sorted::preset(c["preset"].as_u64().unwrap_or(0) as usize) };
             sorted::sorted_case(cx, cfg, &parse_u64s(&c["values"]), true)
         }
+        Some("uintvector_mixed") => uintvector_mixed_case(cx, &parse_u64s(&c["values"]).iter().map(|&x| x as u32).collect::<Vec<_>>(), c["split"].as_u64().unwrap_or(0) as usize),
         Some("uintvector") => uintvector_case(cx, &parse_u64s(&c["values"]).iter().map(|&x| x as u32).collect::<Vec<_>>(), c["push"].as_bool().unwrap_or(false), true, rng),
         Some("zip") => { let mode = c["mode"].as_u64().map(|m| m as u32).unwrap_or(if c["push"].as_bool().unwrap_or(false) { 1 } else { 0 }); zip_case(cx, &parse_u64s(&c["values"]), mode, true) }
         Some("min0typed") => { let v: Vec<i64> = c["values"].as_array().unwrap().iter().map(|x| x.as_str().unwrap_or("0").parse::<i64>().unwrap_or(0)).collect(); min0_typed_case(cx, &v, c["signed"].as_bool().unwrap_or(false), true) }
@@ -406,6 +440,7 @@ pub fn run(args: &Args) {
             _ => u32::MAX - rng.below(3) as u32 }).collect();
         uintvector_case(&mut cx, &uv, false, false, &mut rng);
         uintvector_case(&mut cx, &uv, true, false, &mut rng);
+        { let sp = *rng.pick(&[0usize, 1, 2, 63, 64, 65, n / 2, n.saturating_sub(1), n]); uintvector_mixed_case(&mut cx, &uv, sp); }
         // ZipIntVec
         let zn = *rng.pick(&[1usize, 1, 2, 3, 10, 63, 64, 65, 130]);
         let sh = *rng.pick(&[0u32, 1, 8, 20, 40, 57, 58, 59, 63]);
